@@ -35,14 +35,19 @@
 (* homomorphism, and a conjunctive rule (two version-1 features that       *)
 (* together yield a version-2 feature) is monotone without being one.      *)
 (***************************************************************************)
-EXTENDS ProblemKindLattice, ProblemKindLatticeTables
+EXTENDS ProblemKindLatticeUpgradeTables, ProblemKindLattice   \* tables first: see there
 
+CONSTANT CoverFeat   \* [1..Latest-1 -> SUBSET Feat]: the features the enumerated kinds of version v are made of
+                     \* (thorough: every feature of the universe available in v; quick: those the upgrade
+                     \* function of v reads or removes and those that do not count in v -- the others pass
+                     \* through that function unchanged and unnoticed, as far as the driver's probes can tell)
 Below == 1..(Latest - 1)
-\* ProblemKind(F, version=v) for every version that can still be upgraded and every F available in it
-NewFirst  == \E v \in Below : \E F \in SUBSET Avail(v) : New(1, [dv |-> v, f |-> F])
+\* ProblemKind(F, version=v) for every version that can still be upgraded and every F over CoverFeat[v]
+NewFirst  == /\ live = {}     \* (guard first: TLC would otherwise enumerate the subsets in every state)
+             /\ \E v \in Below : \E F \in SUBSET CoverFeat[v] : New(1, [dv |-> v, f |-> F])
 \* the same kind with one more feature
 NewSecond == /\ live = {1}
-             /\ \E g \in Avail(objs[1].dv) \ objs[1].f :
+             /\ \E g \in CoverFeat[objs[1].dv] \ objs[1].f :
                    New(2, [dv |-> objs[1].dv, f |-> objs[1].f \cup {g}])
 CoverNext == NewFirst \/ NewSecond
 CoverSpec == Init /\ [][CoverNext]_vars
@@ -53,7 +58,7 @@ LawUpgradeCover == Both => /\ Le(A1, A2)
 \* LawTables (UpgradeWF of object 1) is ProblemKindLattice's
 
 \* number of states the driver expects: 1 + kinds + covering pairs
-NAvail(v) == Cardinality(Avail(v))
+NAvail(v) == Cardinality(CoverFeat[v])
 RECURSIVE CoverUpTo(_)
 CoverUpTo(v) == IF v = 0 THEN 0
                 ELSE CoverUpTo(v - 1) + (2 ^ NAvail(v)) + (NAvail(v) * (2 ^ NAvail(v))) \div 2
